@@ -37,6 +37,12 @@ type s4 struct {
 	timeout   time.Duration
 	backoff   time.Duration
 	restarts  int
+	// leader-only mode: two endpoints with replicated contents
+	leaderOnly bool
+	eps        []string
+	srvs       map[string]*ServerInst
+	ws         map[string]*RawPeer
+	leader     string
 }
 
 type clientTxn struct {
@@ -92,12 +98,23 @@ func cfgS4(prop string, seed uint64, tier string) *RunCfg {
 		}
 		c.Monitors = append(c.Monitors, ms)
 	}
+	if r.Intn(4) == 0 {
+		// leader-only client, two endpoints whose contents are kept identical by the writer
+		c.Knobs["leader_only"] = 1
+		c.Clients[0].LeaderOnly = true
+		for i := range c.Txns {
+			c.Txns[i].Kind = ""
+		}
+	}
 	// fault plan
 	nf := 1 + r.Intn(3)
 	for k := 0; k < nf; k++ {
 		kinds := []string{"cut", "cut", "cut", "torn", "restart", "refuse", "stall"}
 		if cs.Inactivity > 0 {
 			kinds = append(kinds, "blackhole", "blackhole")
+		}
+		if c.Knobs["leader_only"] == 1 {
+			kinds = []string{"flip", "flip", "cut", "torn"}
 		}
 		f := FaultSpec{Kind: kinds[r.Intn(len(kinds))], AfterTxn: r.Intn(n), Frame: r.Intn(14), Bytes: r.Intn(40), N: 1 + r.Intn(2), Ms: []int{100, 700, 3000}[r.Intn(3)], Dir: r.Intn(2)}
 		if k == 0 && r.Intn(3) == 0 {
@@ -234,6 +251,8 @@ func (s *s4) arm(i int) {
 					})
 				}
 			}
+		case "flip":
+			s.flipLeader()
 		case "blackhole":
 			for _, l := range s.clientLinks() {
 				if !l.IsCut() {
@@ -256,24 +275,58 @@ func runS4(e *Env, cfg *RunCfg) {
 	s.backoff = ms(cfg.Knob("backoff_ms", 100))
 	s.inact = ms(s.spec.Inactivity)
 	s.bound = 4*(s.timeout+s.backoff) + 4*s.inact + 5*time.Second
-	s.srv = e.StartServer(epMain, false, nil)
-	if e.Stopped() {
-		return
-	}
+	s.leaderOnly = cfg.Knob("leader_only", 0) == 1
+	s.eps = []string{epMain}
 	var err error
-	s.w, err = e.NewRawPeer("w", epMain)
-	if err != nil {
-		e.Fatalf("writer dial: %v", err)
-		return
+	if s.leaderOnly {
+		s.eps = []string{epMain, "ep1:6640"}
+		s.srvs = map[string]*ServerInst{}
+		s.ws = map[string]*RawPeer{}
+		for k, ep := range s.eps {
+			si := e.StartServer(ep, true, nil)
+			if e.Stopped() {
+				return
+			}
+			s.srvs[ep] = si
+			w, err := e.NewRawPeer(fmt.Sprintf("w@%d", k), ep)
+			if err != nil {
+				e.Fatalf("writer dial: %v", err)
+				return
+			}
+			s.ws[ep] = w
+			si.SID = fmt.Sprintf("00000000-0000-4000-8000-5e0000000%03d", k)
+			si.Leader = k == 0
+			row := map[string]any{"name": e.Sch.Name, "model": "clustered", "connected": true, "leader": si.Leader, "sid": []any{"uuid", si.SID}, "cid": []any{"uuid", "00000000-0000-4000-8000-c1d000000000"}, "index": 1}
+			call := w.Call("transact", []any{"_Server", Op{"op": "insert", "table": "Database", "row": row}, Op{"op": "insert", "table": "Database", "row": map[string]any{"name": "_Server", "model": "standalone", "connected": true, "leader": true}}})
+			if !e.RunUntil(func() bool { return call.Done }) || call.ErrorStr != "" {
+				if !e.Stopped() {
+					e.Fatalf("cannot seed _Server: %s", call)
+				}
+				return
+			}
+		}
+		s.leader = epMain
+		s.srv = s.srvs[epMain]
+		s.w = s.ws[epMain]
+	} else {
+		s.srv = e.StartServer(epMain, false, nil)
+		if e.Stopped() {
+			return
+		}
+		s.w, err = e.NewRawPeer("w", epMain)
+		if err != nil {
+			e.Fatalf("writer dial: %v", err)
+			return
+		}
 	}
 	e.Sim.Net.BeforeDeliver = s.beforeDeliver
 	s.arm(-1)
 	// client: connect (retrying like a user would when the first attempt fails)
-	o := ClientOpts{Reconnect: true, Timeout: s.timeout, BackoffStep: s.backoff, Inactivity: s.inact}
+	o := ClientOpts{Reconnect: true, Timeout: s.timeout, BackoffStep: s.backoff, Inactivity: s.inact, LeaderOnly: s.leaderOnly}
 	if s.spec.Indexes {
 		o.Indexes = clientIndexes(e.Sch)
 	}
-	ci := e.NewClient(s.spec.Name, []string{epMain}, o)
+	ci := e.NewClient(s.spec.Name, s.eps, o)
 	if ci == nil {
 		return
 	}
@@ -290,6 +343,16 @@ func runS4(e *Env, cfg *RunCfg) {
 		} else {
 			e.Logf("connect attempt %d failed: %v", try, err)
 			e.Probes["connect_failed_under_fault"]++
+			// a Connect that failed half-way (e.g. while setting up the leadership
+			// watch) leaves a client that reconnects on its own but was never fully
+			// set up; like a careful user, close it before trying again
+			cl := e.Go(fmt.Sprintf("c0.close%d", try), func(c *Call) { ci.C.Close() })
+			if !e.WaitCall(cl) {
+				if !e.Stopped() {
+					s.liveness("Close after a failed Connect never returns")
+				}
+				return
+			}
 			if !e.RunUntil(func() bool { return e.Now() > s.lastFault+s.backoff }) && e.Stopped() {
 				return
 			}
@@ -379,21 +442,62 @@ func (s *s4) writerTransact(i int, txn TxnSpec) bool {
 		return table == "Root" && len(n.Set) == 1 && strings.HasPrefix(n.Set[0].S, "cm-")
 	}
 	g.UUIDWhereOnly = true
+	if s.leaderOnly {
+		g.prof.ExplicitID = 1000
+	}
 	ops, _ := g.Txn()
 	ops = NormalizeOps(ops)
 	params := []any{s.db}
 	for _, op := range ops {
 		params = append(params, op)
 	}
-	call := s.w.Call("transact", params)
+	var calls []*RawCall
+	if s.leaderOnly {
+		// the writer stands for the cluster's replication: every endpoint applies the transaction
+		for _, ep := range s.eps {
+			calls = append(calls, s.ws[ep].Call("transact", params))
+		}
+	} else {
+		calls = append(calls, s.w.Call("transact", params))
+	}
 	e.Logf("writer txn %d: %s", i, trimStr(string(mustJSON(ops)), 500))
-	if !e.RunUntil(func() bool { return call.Done }) {
+	if !e.RunUntil(func() bool {
+		for _, c := range calls {
+			if !c.Done {
+				return false
+			}
+		}
+		return true
+	}) {
 		if !e.Stopped() {
 			s.hang(fmt.Sprintf("transact %d of the (never faulted) writer", i), nil)
 		}
 		return false
 	}
 	return true
+}
+
+// flipLeader makes the other endpoint the leader (the old leader learns first
+// that it lost leadership, as in a real election).
+func (s *s4) flipLeader() {
+	e := s.e
+	if !s.leaderOnly {
+		return
+	}
+	old := s.leader
+	nu := s.eps[0]
+	if nu == old {
+		nu = s.eps[1]
+	}
+	set := func(ep string, leader bool) {
+		call := s.ws[ep].Call("transact", []any{"_Server", Op{"op": "update", "table": "Database", "where": []any{[]any{"name", "==", e.Sch.Name}}, "row": map[string]any{"leader": leader}}})
+		e.RunUntil(func() bool { return call.Done })
+		s.srvs[ep].Leader = leader
+	}
+	s.fault("leader-flip", fmt.Sprintf("leadership moves from %s to %s", old, nu))
+	set(old, false)
+	set(nu, true)
+	s.leader = nu
 }
 
 // clientTransact: the client inserts a uniquely named marker row. The call may
@@ -470,12 +574,27 @@ func (s *s4) converge(when string) bool {
 	}
 	var lastDiff string
 	var connected bool
+	notLeader := ""
 	cond := func() bool {
 		if !e.Quiet() || s.active["stall"] {
 			return e.Now() > deadline
 		}
 		connected = false
-		e.Sim.Try(func() { connected = s.mc.ci.C.Connected() && s.mc.ci.C.CurrentEndpoint() != "" })
+		attached := ""
+		e.Sim.Try(func() {
+			attached = strings.TrimPrefix(s.mc.ci.C.CurrentEndpoint(), "tcp:")
+			connected = s.mc.ci.C.Connected() && attached != ""
+		})
+		if connected && s.leaderOnly {
+			if si := s.srvs[attached]; si != nil {
+				s.srv = si
+				if !si.Leader {
+					notLeader = attached
+					return e.Now() > deadline
+				}
+				notLeader = ""
+			}
+		}
 		if connected {
 			db, _, ok := e.SnapshotDB(s.srv)
 			var got DBState
@@ -507,6 +626,10 @@ func (s *s4) converge(when string) bool {
 		if e.Now() > deadline {
 			break
 		}
+	}
+	if connected && notLeader != "" {
+		e.ViolateK("C16.leader", "attached-to-non-leader", "%s: %v after the last fault the leader-only client is still attached to %s, which reports it is not the leader\nclient log: %v", when, e.Now()-s.lastFault, notLeader, tail(s.mc.ci.Log.lines, 10))
+		return false
 	}
 	if connected && lastDiff != "" {
 		e.ViolateK("C16.mirror", s.mirrorKey(s.mc, mustDB(e, s.srv), mustCache(s, s.mc))+fmt.Sprintf(":monitors=%d", len(s.mc.mons)), "%s: the client reports being connected but %v after the last fault its cache still differs from the database (database vs cache):\n%s\nmonitors: %s\nfaults: %v\nclient log: %v", when, e.Now()-s.lastFault, lastDiff, s.descMons(s.mc), e.Faults, tail(s.mc.ci.Log.lines, 10))
